@@ -438,3 +438,53 @@ def pit_trace(seed=0, n=10):
     hdr = {"N": 2, "own": [[1], [2]], "order": [1, 2], "mh_like": [True, True], "model": "liesel_pit", "seq": "rw_m_rw_z",
            "pit": {"seed": seed, "n": n}}
     return {"hdr": hdr, "ev": ev}
+
+
+def clash_trace(seed=0, n=10):
+    """A position key that names a node *and* (another) variable: the user gave a value node the name "n0" and a
+    parameter variable the same name.  Position keys mean the node first, for reading and for writing alike: an RW kernel
+    on ["n0"] moves that node and nothing else; a second RW kernel moves m.  Parameters recorded: node n0, the value of
+    the variable n0, m."""
+    import scipy.stats as st
+    import tensorflow_probability.substrates.jax.distributions as tfd
+
+    import liesel.model as lsl
+    from liesel.goose.epoch import EpochConfig, EpochType
+    epoch = EpochConfig(EpochType.POSTERIOR, 10, 1, None).to_state(1, 1)
+    yv = np.asarray([0.4, 0.9, 0.6], np.float32)
+    shift = lsl.Value(jnp.float32(0.5), _name="n0")                        # a plain value node called n0
+    nvar = lsl.Var(jnp.float32(1.0), lsl.Dist(tfd.Normal, loc=0.0, scale=2.0), name="n0")   # ... and a variable called n0
+    m = lsl.Var(jnp.float32(0.3), lsl.Dist(tfd.Normal, loc=0.0, scale=2.0), name="m")
+    mean = lsl.Var(lsl.Calc(lambda a, b, c: a + b + c, shift, nvar, m), name="mean")
+    y = lsl.Var(jnp.asarray(yv), lsl.Dist(tfd.Normal, loc=mean, scale=1.0), name="y")
+    y.observed = True
+    model = lsl.GraphBuilder().add(y).build_model()
+    interface = gs.LieselInterface(model)
+    kernels = [gs.RWKernel(["n0"], initial_step_size=0.6), gs.RWKernel(["m"], initial_step_size=0.6)]
+    for k in kernels:
+        k.set_model(interface)
+    state = model.state
+    key = jax.random.PRNGKey(seed)
+    kstates = [k.init_state(key, state) for k in kernels]
+
+    def params(s):
+        return [fstr(np.asarray(s[nm].value, np.float64)) for nm in ("n0", "n0_value", "m_value")]
+
+    ev = []
+    for it in range(n):
+        for ki, kern in enumerate(kernels):
+            key, sub = jax.random.split(key)
+            before = params(state)
+            out = kern._standard_transition(sub, kstates[ki], state, epoch)
+            state = out.model_state
+            after = params(state)
+            a, b, c = (float(v) for v in after)
+            mu = a + b + c
+            lp = st.norm(0, 2).logpdf(b) + st.norm(0, 2).logpdf(c) + st.norm(mu, 1).logpdf(yv.astype(np.float64)).sum()
+            d = [state["mean_value"].value, state["_model_log_prob"].value]
+            ev.append({"ev": "transition", "k": ki + 1, "kind": "rw", "moved": int(out.info.position_moved), "before": before, "after": after,
+                       "derived": [fstr(np.asarray(x, np.float64)) for x in d], "recomputed": [fstr(mu), fstr(lp)],
+                       "closed_form": [fstr(mu), fstr(lp)]})
+    hdr = {"N": 3, "own": [[1], [3]], "order": [1, 2], "mh_like": [True, True], "model": "liesel_clash", "seq": "rw_n0_rw_m",
+           "clash": {"seed": seed, "n": n}}
+    return {"hdr": hdr, "ev": ev}
